@@ -93,6 +93,33 @@ func Generate(profile string, seed uint64, tier string) (*Scenario, error) {
 	case "C12c":
 		sc.Property = "C12"
 		genC12c(g, sc, tier)
+	case "C13":
+		sc.Property = "C13"
+		genC13(g, sc, tier)
+	case "C13c":
+		sc.Property = "C13"
+		sc.Datasets = []string{"dsA", "dsB"}
+		for w := g.Range(2, 3); w > 0; w-- {
+			var ops []Op
+			for i := g.Range(2, 5); i > 0; i-- {
+				if g.P(0.4) {
+					ops = append(ops, Op{K: "nsid", S: g.c13URI()})
+				} else {
+					e := Ent{"id": g.c13URI(), "props": map[string]any{MkS + "a0": g.scalar()}, "refs": map[string]any{"http://h.example.com/pred#rel": g.c13URI()}}
+					ops = append(ops, Op{K: "batch", DS: g.Pick(sc.Datasets), Ents: []Ent{e}})
+				}
+			}
+			sc.Tasks = append(sc.Tasks, ops)
+		}
+		for rd := g.Range(1, 2); rd > 0; rd-- {
+			var ops []Op
+			for i := g.Range(2, 6); i > 0; i-- {
+				ops = append(ops, Op{K: "ctx", N: g.Intn(3)})
+			}
+			sc.Tasks = append(sc.Tasks, ops)
+		}
+		sc.Knobs["schedSeed"] = int64(g.r.Uint64() >> 1)
+		sc.Knobs["preemptPct"] = int64(g.PickInt([]int{20, 50, 70}))
 	case "C12x":
 		sc.Property = "C12"
 		genC12(g, sc, tier)
@@ -286,9 +313,9 @@ func Execute(sc *Scenario) *Verdict {
 	switch sc.Profile {
 	case "C01", "C02", "C03", "C06", "C12":
 		return RunStoreScenario(sc)
-	case "C05", "C02c", "C12c":
+	case "C05", "C02c", "C12c", "C13c":
 		return RunConcScenario(sc)
-	case "C04", "C07", "C12x":
+	case "C04", "C07", "C12x", "C13":
 		return RunCrashScenario(sc)
 	}
 	return execOther(sc)
@@ -590,4 +617,63 @@ func genC12c(g *G, sc *Scenario, tier string) {
 	}
 	sc.Knobs["schedSeed"] = int64(g.r.Uint64() >> 1)
 	sc.Knobs["preemptPct"] = int64(g.PickInt([]int{20, 35, 50, 70}))
+}
+
+var c13Namespaces = []string{
+	"http://data.example.org/things/", "http://a.example.com/x#", "https://b.example.com/p/q/", "http://c.example.com/v1/t#frag/",
+	"http://d.example.com/", "https://e.example.com/a#", "http://f.example.com/deep/er/path/", "http://g.example.com/base#",
+}
+var c13Locals = []string{"k1", "k2", "k3", "", "c:d", "e:f:g", "9", "Name-With.Dots"}
+
+func (g *G) c13URI() string { return g.Pick(c13Namespaces) + g.Pick(c13Locals) }
+
+// genC13: identifiers of many URI shapes, first used in different orders by round trips and by
+// writes to different datasets, with restarts, crashes and context-aliasing probes.
+func genC13(g *G, sc *Scenario, tier string) {
+	sc.Datasets = []string{"dsA", "dsB"}
+	n := g.Range(4, 14)
+	fresh := 0
+	for i := 0; i < n; i++ {
+		x := g.r.Float64()
+		switch {
+		case x < 0.35:
+			sc.Ops = append(sc.Ops, Op{K: "nsid", S: g.c13URI()})
+		case x < 0.43:
+			sc.Ops = append(sc.Ops, Op{K: "restart"})
+		case x < 0.55:
+			fresh++
+			sc.Ops = append(sc.Ops, Op{K: "alias", S: fmt.Sprintf("http://fresh%d.example.com/ns/", fresh)})
+		default:
+			var ents []Ent
+			for k := g.Range(1, 3); k > 0; k-- {
+				e := Ent{"id": g.c13URI(), "props": map[string]any{MkS + "a0": g.scalar()}, "refs": map[string]any{}}
+				if e["id"] == "" {
+					continue
+				}
+				if g.P(0.5) {
+					e["refs"].(map[string]any)[g.Pick([]string{MkS + "p0", "http://h.example.com/pred#rel", "https://b.example.com/p/q/likes"})] = g.c13URI()
+				}
+				ents = append(ents, e)
+			}
+			sc.Ops = append(sc.Ops, Op{K: "batch", DS: g.Pick(sc.Datasets), Ents: ents})
+		}
+	}
+	if g.P(0.3) {
+		sc.Knobs["allPoints"] = 1
+	} else {
+		for k := g.Range(0, 3); k > 0; k-- {
+			sc.Faults = append(sc.Faults, Fault{At: g.Pick(crashablePoints), Hit: g.Range(1, 6), Kind: "crash"})
+		}
+	}
+	for i, op := range sc.Ops {
+		if op.K == "batch" || op.K == "nsid" || op.K == "alias" {
+			if g.P(0.4) {
+				sc.Cuts = append(sc.Cuts, [2]int64{int64(i), 1000})
+			}
+			if g.P(0.5) {
+				sc.Cuts = append(sc.Cuts, [2]int64{int64(i), int64(g.Range(1, 999))})
+			}
+		}
+	}
+	sc.Knobs["maxStates"] = 10
 }
